@@ -3,12 +3,28 @@ import Irismod.Sdk.GoSem
 namespace Irismod.Gen.PureFarm
 open Irismod.Sdk Irismod.GoSem
 
+/-- rejects when true: `height < pool.LastHeightDistrRewards` -/
+def updatePool_guard_1 (height : Int) (pool_LastHeightDistrRewards : Int) : Option (Bool) := do
+  some (decide (height < pool_LastHeightDistrRewards))
+
+/-- rejects when true: `len(rules) == 0` -/
+def updatePool_guard_2 (read_len_rules : Int) : Option (Bool) := do
+  some (read_len_rules == (0 : Int))
+
+/-- branch condition: `height > pool.LastHeightDistrRewards && pool.TotalLptLocked.Amount.GT(math.ZeroInt())` -/
+def updatePool_cond_3 (height : Int) (pool_LastHeightDistrRewards : Int) (pool_TotalLptLocked : Coin) : Option (Bool) := do
+  some ((decide (height > pool_LastHeightDistrRewards)) && (Int_GT pool_TotalLptLocked.amount ZeroInt))
+
 def updatePool_blockInterval_1 (height : Int) (pool_LastHeightDistrRewards : Int) : Option (Int) := do
   some (I64_Sub height pool_LastHeightDistrRewards)
 
 def updatePool_rewardCollected_1 (rules_i_RewardPerBlock : Int) (blockInterval : Int) : Option (Int) := do
   let t1 ← Int_Mul rules_i_RewardPerBlock blockInterval
   some t1
+
+/-- rejects when true: `rules[i].RemainingReward.LT(rewardCollected)` -/
+def updatePool_guard_4 (rules_i_RemainingReward : Int) (rewardCollected : Int) : Option (Bool) := do
+  some (Int_LT rules_i_RemainingReward rewardCollected)
 
 def updatePool_newRewardPerShare_1 (rewardCollected : Int) (pool_TotalLptLocked : Coin) : Option (Dec) := do
   let t1 ← Dec_QuoInt (LegacyNewDecFromInt rewardCollected) pool_TotalLptLocked.amount
@@ -22,22 +38,6 @@ def updatePool_rules_i_RemainingReward_1 (rules_i_RemainingReward : Int) (reward
   let t1 ← Int_Sub rules_i_RemainingReward rewardCollected
   some t1
 
-/-- rejects when true: `height < pool.LastHeightDistrRewards` -/
-def updatePool_guard_1 (height : Int) (pool_LastHeightDistrRewards : Int) : Option (Bool) := do
-  some (decide (height < pool_LastHeightDistrRewards))
-
-/-- rejects when true: `len(rules) == 0` -/
-def updatePool_guard_2 (read_len_rules : Int) : Option (Bool) := do
-  some (read_len_rules == (0 : Int))
-
-/-- branch condition: `height > pool.LastHeightDistrRewards && pool.TotalLptLocked.Amount.GT(math.ZeroInt())` -/
-def updatePool_cond_3 (height : Int) (pool_LastHeightDistrRewards : Int) (pool_TotalLptLocked : Coin) : Option (Bool) := do
-  some ((decide (height > pool_LastHeightDistrRewards)) && (Int_GT pool_TotalLptLocked.amount ZeroInt))
-
-/-- rejects when true: `rules[i].RemainingReward.LT(rewardCollected)` -/
-def updatePool_guard_4 (rules_i_RemainingReward : Int) (rewardCollected : Int) : Option (Bool) := do
-  some (Int_LT rules_i_RemainingReward rewardCollected)
-
 /-- branch condition: `rewardTotal.IsAllPositive()` -/
 def updatePool_cond_5 (read_rewardTotal_IsAllPositive : Bool) : Option (Bool) := do
   some read_rewardTotal_IsAllPositive
@@ -49,6 +49,104 @@ def updatePool_cond_6 (isDestroy : Bool) : Option (Bool) := do
 /-- branch condition: `pool.StartHeight > pool.EndHeight` -/
 def updatePool_cond_7 (pool_StartHeight : Int) (pool_EndHeight : Int) : Option (Bool) := do
   some (decide (pool_StartHeight > pool_EndHeight))
+
+/-- rejects when true: `!pool.Editable` -/
+def AdjustPool_guard_1 (pool_Editable : Bool) : Option (Bool) := do
+  some (!pool_Editable)
+
+/-- rejects when true: `creator.String() != pool.Creator` -/
+def AdjustPool_guard_2 (read_creator_String : String) (pool_Creator : String) : Option (Bool) := do
+  some (read_creator_String != pool_Creator)
+
+/-- rejects when true: `k.Expired(ctx, pool)` -/
+def AdjustPool_guard_3 (read_k_Expired_ctx_pool : Bool) : Option (Bool) := do
+  some read_k_Expired_ctx_pool
+
+def AdjustPool_startHeight_1 (pool_StartHeight : Int) : Option (Int) := do
+  some pool_StartHeight
+
+/-- branch condition: `pool.Started(ctx)` -/
+def AdjustPool_cond_4 (read_pool_Started_ctx : Bool) : Option (Bool) := do
+  some read_pool_Started_ctx
+
+def AdjustPool_startHeight_2 (read_ctx_BlockHeight : Int) : Option (Int) := do
+  some read_ctx_BlockHeight
+
+/-- argument 2 of `k.updatePool` -/
+def AdjustPool_call_updatePool_1_arg2 : Option (Int) := do
+  some ZeroInt
+
+/-- argument 3 of `k.updatePool` -/
+def AdjustPool_call_updatePool_1_arg3 : Option (Bool) := do
+  some false
+
+def AdjustPool_rules_i_TotalReward_1 (rules_i_TotalReward : Int) (read_reward_AmountOf_rules_i_Reward : Int) : Option (Int) := do
+  let t1 ← Int_Add rules_i_TotalReward read_reward_AmountOf_rules_i_Reward
+  some t1
+
+def AdjustPool_rules_i_RemainingReward_1 (rules_i_RemainingReward : Int) (read_reward_AmountOf_rules_i_Reward : Int) : Option (Int) := do
+  let t1 ← Int_Add rules_i_RemainingReward read_reward_AmountOf_rules_i_Reward
+  some t1
+
+/-- branch condition: `pool.Started(ctx)` -/
+def AdjustPool_cond_5 (read_pool_Started_ctx : Bool) : Option (Bool) := do
+  some read_pool_Started_ctx
+
+def AdjustPool_remainingHeight_1 (pool_EndHeight : Int) (startHeight : Int) : Option (Int) := do
+  some (I64_Sub pool_EndHeight startHeight)
+
+/-- argument 0 of `rules.UpdateWith` -/
+def AdjustPool_call_UpdateWith_1_arg0 (rewardPerBlock : List Coin) : Option (List Coin) := do
+  some rewardPerBlock
+
+/-- argument 1 of `k.SetRewardRules` -/
+def AdjustPool_call_SetRewardRules_1_arg1 (pool_Id : String) : Option (String) := do
+  some pool_Id
+
+def AdjustPool_availableHeight_1 : Option (Int) := do
+  some (-1 : Int)
+
+def AdjustPool_inteval_1 (read_availableReward_AmountOf_r_Reward : Int) (r_RewardPerBlock : Int) : Option (Int) := do
+  let t1 ← Int_Quo read_availableReward_AmountOf_r_Reward r_RewardPerBlock
+  let t2 ← Int_Int64 t1
+  some t2
+
+/-- branch condition: `availableHeight < 0 || availableHeight > inteval` -/
+def AdjustPool_cond_6 (availableHeight : Int) (inteval : Int) : Option (Bool) := do
+  some ((decide (availableHeight < (0 : Int))) || (decide (availableHeight > inteval)))
+
+def AdjustPool_availableHeight_2 (inteval : Int) : Option (Int) := do
+  some inteval
+
+def AdjustPool_expiredHeight_1 (startHeight : Int) (availableHeight : Int) : Option (Int) := do
+  some (I64_Add startHeight availableHeight)
+
+/-- branch condition: `expiredHeight == pool.EndHeight` -/
+def AdjustPool_cond_7 (expiredHeight : Int) (pool_EndHeight : Int) : Option (Bool) := do
+  some (expiredHeight == pool_EndHeight)
+
+/-- argument 1 of `k.DequeueActivePool` -/
+def AdjustPool_call_DequeueActivePool_1_arg1 (pool_Id : String) : Option (String) := do
+  some pool_Id
+
+/-- argument 2 of `k.DequeueActivePool` -/
+def AdjustPool_call_DequeueActivePool_1_arg2 (pool_EndHeight : Int) : Option (Int) := do
+  some pool_EndHeight
+
+def AdjustPool_pool_EndHeight_1 (expiredHeight : Int) : Option (Int) := do
+  some expiredHeight
+
+/-- argument 1 of `k.EnqueueActivePool` -/
+def AdjustPool_call_EnqueueActivePool_1_arg1 (pool_Id : String) : Option (String) := do
+  some pool_Id
+
+/-- argument 2 of `k.EnqueueActivePool` -/
+def AdjustPool_call_EnqueueActivePool_1_arg2 (pool_EndHeight : Int) : Option (Int) := do
+  some pool_EndHeight
+
+/-- branch condition: `farmInfo.Locked.GT(sdkmath.ZeroInt())` -/
+def CaclRewards_cond_1 (farmInfo_Locked : Int) : Option (Bool) := do
+  some (Int_GT farmInfo_Locked ZeroInt)
 
 def CaclRewards_pendingRewardTotal_1 (r_RewardPerShare : Dec) (farmInfo_Locked : Int) : Option (Int) := do
   let t1 ← Dec_MulInt r_RewardPerShare farmInfo_Locked
@@ -69,14 +167,10 @@ def CaclRewards_debt_1 (r_Reward : String) (r_RewardPerShare : Dec) (locked : In
   let t3 ← NewCoin r_Reward t2
   some t3
 
-/-- branch condition: `farmInfo.Locked.GT(sdkmath.ZeroInt())` -/
-def CaclRewards_cond_1 (farmInfo_Locked : Int) : Option (Bool) := do
-  some (Int_GT farmInfo_Locked ZeroInt)
-
 /-- targets the translator refused, with the reason (must be empty) -/
 def untranslated : List String := []
 
 /-- names of the translated definitions -/
-def translated : List String := ["updatePool_blockInterval_1(height,pool_LastHeightDistrRewards)", "updatePool_rewardCollected_1(rules_i_RewardPerBlock,blockInterval)", "updatePool_newRewardPerShare_1(rewardCollected,pool_TotalLptLocked)", "updatePool_rules_i_RewardPerShare_1(rules_i_RewardPerShare,newRewardPerShare)", "updatePool_rules_i_RemainingReward_1(rules_i_RemainingReward,rewardCollected)", "updatePool_guard_1(height,pool_LastHeightDistrRewards)", "updatePool_guard_2(read_len_rules)", "updatePool_cond_3(height,pool_LastHeightDistrRewards,pool_TotalLptLocked)", "updatePool_guard_4(rules_i_RemainingReward,rewardCollected)", "updatePool_cond_5(read_rewardTotal_IsAllPositive)", "updatePool_cond_6(isDestroy)", "updatePool_cond_7(pool_StartHeight,pool_EndHeight)", "CaclRewards_pendingRewardTotal_1(r_RewardPerShare,farmInfo_Locked)", "CaclRewards_pendingReward_1(pendingRewardTotal,read_farmInfo_RewardDebt_AmountOf_r_Reward)", "CaclRewards_locked_1(farmInfo_Locked,deltaAmt)", "CaclRewards_debt_1(r_Reward,r_RewardPerShare,locked)", "CaclRewards_cond_1(farmInfo_Locked)"]
+def translated : List String := ["updatePool_guard_1(height,pool_LastHeightDistrRewards)", "updatePool_guard_2(read_len_rules)", "updatePool_cond_3(height,pool_LastHeightDistrRewards,pool_TotalLptLocked)", "updatePool_blockInterval_1(height,pool_LastHeightDistrRewards)", "updatePool_rewardCollected_1(rules_i_RewardPerBlock,blockInterval)", "updatePool_guard_4(rules_i_RemainingReward,rewardCollected)", "updatePool_newRewardPerShare_1(rewardCollected,pool_TotalLptLocked)", "updatePool_rules_i_RewardPerShare_1(rules_i_RewardPerShare,newRewardPerShare)", "updatePool_rules_i_RemainingReward_1(rules_i_RemainingReward,rewardCollected)", "updatePool_cond_5(read_rewardTotal_IsAllPositive)", "updatePool_cond_6(isDestroy)", "updatePool_cond_7(pool_StartHeight,pool_EndHeight)", "AdjustPool_guard_1(pool_Editable)", "AdjustPool_guard_2(read_creator_String,pool_Creator)", "AdjustPool_guard_3(read_k_Expired_ctx_pool)", "AdjustPool_startHeight_1(pool_StartHeight)", "AdjustPool_cond_4(read_pool_Started_ctx)", "AdjustPool_startHeight_2(read_ctx_BlockHeight)", "AdjustPool_call_updatePool_1_arg2()", "AdjustPool_call_updatePool_1_arg3()", "AdjustPool_rules_i_TotalReward_1(rules_i_TotalReward,read_reward_AmountOf_rules_i_Reward)", "AdjustPool_rules_i_RemainingReward_1(rules_i_RemainingReward,read_reward_AmountOf_rules_i_Reward)", "AdjustPool_cond_5(read_pool_Started_ctx)", "AdjustPool_remainingHeight_1(pool_EndHeight,startHeight)", "AdjustPool_call_UpdateWith_1_arg0(rewardPerBlock)", "AdjustPool_call_SetRewardRules_1_arg1(pool_Id)", "AdjustPool_availableHeight_1()", "AdjustPool_inteval_1(read_availableReward_AmountOf_r_Reward,r_RewardPerBlock)", "AdjustPool_cond_6(availableHeight,inteval)", "AdjustPool_availableHeight_2(inteval)", "AdjustPool_expiredHeight_1(startHeight,availableHeight)", "AdjustPool_cond_7(expiredHeight,pool_EndHeight)", "AdjustPool_call_DequeueActivePool_1_arg1(pool_Id)", "AdjustPool_call_DequeueActivePool_1_arg2(pool_EndHeight)", "AdjustPool_pool_EndHeight_1(expiredHeight)", "AdjustPool_call_EnqueueActivePool_1_arg1(pool_Id)", "AdjustPool_call_EnqueueActivePool_1_arg2(pool_EndHeight)", "CaclRewards_cond_1(farmInfo_Locked)", "CaclRewards_pendingRewardTotal_1(r_RewardPerShare,farmInfo_Locked)", "CaclRewards_pendingReward_1(pendingRewardTotal,read_farmInfo_RewardDebt_AmountOf_r_Reward)", "CaclRewards_locked_1(farmInfo_Locked,deltaAmt)", "CaclRewards_debt_1(r_Reward,r_RewardPerShare,locked)"]
 
 end Irismod.Gen.PureFarm
